@@ -401,6 +401,12 @@ def check(tier):
     rspecs += ['grammar d;\nstart = aa bb cc dd "x";\n', 'grammar d;\nstart = expr;\nexpr = expr "+" expr | expr "*" expr | "x";\n',
                'grammar d;\n@left "+" "-";\n@right "+";\n@none "-";\nstart = start "+" start | start "-" start | "x";\n',
                'grammar d;\nstart = aa | bb;\naa = "x";\nbb = "x";\n', 'grammar d;\naa = "x";\nbb = "y" aa;\n']
+    # patterns that are wrong in two ways at once (a recorded range problem AND a syntax failure), next to valid ones: whatever one
+    # pattern leaves behind must not show in the diagnostics of the next run
+    rspecs += ['grammar d;\nWORD = /[a-z]+/\nBROKEN = /x{3,1}(/\nstart = WORD BROKEN;\n',
+               'grammar d;\nAA = /[z-a]x)/\nBB = /[0-9]+/\nCC = /b{2,1}/\nstart = AA BB CC;\n',
+               'grammar d;\nAA = /(/\nBB = /[9-0]/\nCC = /c+/\nstart = AA BB CC;\n',
+               'grammar d;\nAA = /a{4,2})/\nBB = /[0-9]+/\nstart = AA BB;\n']
     for _ in range(15 if tier == "quick" else 120):
         rspecs.append(S.gen_wellformed(rng))
     times = 12 if tier == "quick" else 40
